@@ -277,20 +277,37 @@ def assignS : List Char := [':', '=']
 def colonS : List Char := [':']
 
 /-- `TypeDeclaration::parse`. -/
+def typeDeclInner (name0 : Option Identifier) (te0 : Option (Ref TypeExpr)) :
+    P (List (List Char) × Option Identifier × Option (Ref TypeExpr)) :=
+  bind (docComments ctx) (fun doc =>
+    bind (tk ctx .Type) (fun _ =>
+    bind (expect name0 (parseIdentifier ctx) (.ExpectedToken (chars "identifier"))) (fun name =>
+    bind (expect none (inc (altList [
+            tk ctx .Eq,
+            confusable (tk ctx .Assign) (.ConfusedToken eqS assignS),
+            confusable (tk ctx .Colon) (.ConfusedToken eqS colonS)])) (.ExpectedToken eqS)) (fun _ =>
+    bind (expect te0 (refTypeExpr ctx) (.ExpectedToken (chars "type expression"))) (fun te =>
+    bind (expect none (inc (tk ctx .Semic)) .MissingTrailingSemic) (fun _ =>
+      pure' (doc, name, te)))))))
+
 def parseTypeDecl (this : Option TypeDecl) : P TypeDecl :=
   affected ctx typeDeclOps this
     (pmap (fun (p : (List (List Char) × Option Identifier × Option (Ref TypeExpr)) × AstInfo) =>
         ({ doc := p.1.1, name := p.1.2.1, typeExpr := p.1.2.2, info := p.2 } : TypeDecl))
-      (info (bind (docComments ctx) (fun doc =>
-        bind (tk ctx .Type) (fun _ =>
-        bind (expect (this.bind (·.name)) (parseIdentifier ctx) (.ExpectedToken (chars "identifier"))) (fun name =>
-        bind (expect none (inc (altList [
-                tk ctx .Eq,
-                confusable (tk ctx .Assign) (.ConfusedToken eqS assignS),
-                confusable (tk ctx .Colon) (.ConfusedToken eqS colonS)])) (.ExpectedToken eqS)) (fun _ =>
-        bind (expect (this.bind (·.typeExpr)) (refTypeExpr ctx) (.ExpectedToken (chars "type expression"))) (fun te =>
-        bind (expect none (inc (tk ctx .Semic)) .MissingTrailingSemic) (fun _ =>
-          pure' (doc, name, te))))))))))
+      (info (typeDeclInner ctx (this.bind (·.name)) (this.bind (·.typeExpr)))))
+
+def varDeclInner (name0 : Option Identifier) (te0 : Option (Ref TypeExpr)) :
+    P (List (List Char) × Option Identifier × Option (Ref TypeExpr)) :=
+  bind (docComments ctx) (fun doc =>
+    bind (tk ctx .Var) (fun _ =>
+    bind (expect name0 (parseIdentifier ctx) (.ExpectedToken (chars "identifier"))) (fun name =>
+    bind (expect none (inc (altList [
+            tk ctx .Colon,
+            confusable (tk ctx .Assign) (.ConfusedToken colonS assignS),
+            confusable (tk ctx .Eq) (.ConfusedToken colonS eqS)])) (.ExpectedToken colonS)) (fun _ =>
+    bind (expect te0 (refTypeExpr ctx) (.ExpectedToken (chars "type expression"))) (fun te =>
+    bind (expect none (inc (tk ctx .Semic)) .MissingTrailingSemic) (fun _ =>
+      pure' (doc, name, te)))))))
 
 /-- `VariableDeclaration::parse`. -/
 def parseVarDecl (this : Option VarDecl) : P VarDecl :=
@@ -301,16 +318,7 @@ def parseVarDecl (this : Option VarDecl) : P VarDecl :=
     affected ctx varDeclOps this
       (pmap (fun (p : (List (List Char) × Option Identifier × Option (Ref TypeExpr)) × AstInfo) =>
           VarDecl.valid p.1.1 p.1.2.1 p.1.2.2 p.2)
-        (info (bind (docComments ctx) (fun doc =>
-          bind (tk ctx .Var) (fun _ =>
-          bind (expect name (parseIdentifier ctx) (.ExpectedToken (chars "identifier"))) (fun name =>
-          bind (expect none (inc (altList [
-                  tk ctx .Colon,
-                  confusable (tk ctx .Assign) (.ConfusedToken colonS assignS),
-                  confusable (tk ctx .Eq) (.ConfusedToken colonS eqS)])) (.ExpectedToken colonS)) (fun _ =>
-          bind (expect te (refTypeExpr ctx) (.ExpectedToken (chars "type expression"))) (fun te =>
-          bind (expect none (inc (tk ctx .Semic)) .MissingTrailingSemic) (fun _ =>
-            pure' (doc, name, te))))))))))
+        (info (varDeclInner ctx name te)))
   let parseError : P VarDecl :=
     pmap (fun (p : List Token × AstInfo) =>
         VarDecl.error { p.2 with errors := p.2.errors ++ [⟨p.2.range, .ExpectedToken (chars "variable declaration")⟩] })
@@ -318,6 +326,18 @@ def parseVarDecl (this : Option VarDecl) : P VarDecl :=
   match this with
   | some (.valid ..) => parseValid this
   | _ => alt2 (parseValid none) parseError
+
+def paramDeclInner (name0 : Option Identifier) (te0 : Option (Ref TypeExpr)) :
+    P (List (List Char) × (Bool × Option Identifier) × Option (Ref TypeExpr)) :=
+  bind (docComments ctx) (fun doc =>
+    bind (alt2
+          (bind (tk ctx .Ref) (fun _ =>
+            pmap (fun n => (true, n)) (expect name0 (parseIdentifier ctx) (.ExpectedToken (chars "identifier")))))
+          (pmap (fun n => (false, some n)) (parseIdentifier ctx name0))) (fun rn =>
+    bind (expect none (inc (tk ctx .Colon)) (.ExpectedToken colonS)) (fun _ =>
+    bind (expect te0 (refTypeExpr ctx) (.ExpectedToken (chars "type expression"))) (fun te =>
+    bind (peek (la ctx .param_dec)) (fun _ =>
+      pure' (doc, rn, te))))))
 
 /-- `ParameterDeclaration::parse`. -/
 def parseParamDecl (this : Option ParamDecl) : P ParamDecl :=
@@ -327,15 +347,7 @@ def parseParamDecl (this : Option ParamDecl) : P ParamDecl :=
       | _ => (none, none)
     pmap (fun (p : (List (List Char) × (Bool × Option Identifier) × Option (Ref TypeExpr)) × AstInfo) =>
         ParamDecl.valid p.1.1 p.1.2.1.1 p.1.2.1.2 p.1.2.2 p.2)
-      (info (bind (docComments ctx) (fun doc =>
-        bind (alt2
-              (bind (tk ctx .Ref) (fun _ =>
-                pmap (fun n => (true, n)) (expect name (parseIdentifier ctx) (.ExpectedToken (chars "identifier")))))
-              (pmap (fun n => (false, some n)) (parseIdentifier ctx name))) (fun rn =>
-        bind (expect none (inc (tk ctx .Colon)) (.ExpectedToken colonS)) (fun _ =>
-        bind (expect te (refTypeExpr ctx) (.ExpectedToken (chars "type expression"))) (fun te =>
-        bind (peek (la ctx .param_dec)) (fun _ =>
-          pure' (doc, rn, te))))))))
+      (info (paramDeclInner ctx name te))
   let parseError : P ParamDecl :=
     pmap (fun (p : List Token × AstInfo) =>
         ParamDecl.error { p.2 with errors := p.2.errors ++ [⟨p.2.range, .ExpectedToken (chars "parameter declaration")⟩] })
@@ -356,31 +368,36 @@ def parseArgument (this : Option Expr) : P Expr :=
   | some (.error _) | none => alt2 (parseValid none) parseError
   | some e => affected ctx exprOps (some e) (alt2 (parseValid (some e)) parseError)
 
+def callInner (name0 : Option Identifier) (args0 : Option (List (Ref Expr))) : P (Identifier × List (Ref Expr)) :=
+  bind (bind (parseIdentifier ctx name0) (fun n => bind (tk ctx .LParen) (fun _ => pure' n))) (fun name =>
+    bind (alt2
+          (pmap (fun _ => ([] : List (Ref Expr)))
+            (peek (altList [void (tk ctx .RParen), void (tk ctx .Semic), void (tk ctx .Eof)])))
+          (parseList ctx (fun (e : Expr) => e.info.range) (parseArgument ctx) (loopFuel ctx) args0)) (fun args =>
+    bind (expect none (inc (tk ctx .RParen)) (.MissingClosing ')')) (fun _ =>
+    bind (expect none (inc (tk ctx .Semic)) .MissingTrailingSemic) (fun _ =>
+      pure' (name, args)))))
+
 /-- `CallStatement::parse`. -/
 def parseCall (this : Option CallStmt) : P CallStmt :=
   affected ctx callOps this
     (pmap (fun (p : (Identifier × List (Ref Expr)) × AstInfo) =>
         ({ name := p.1.1, args := p.1.2, info := p.2 } : CallStmt))
-      (info (bind (bind (parseIdentifier ctx (this.map (·.name))) (fun n => bind (tk ctx .LParen) (fun _ => pure' n))) (fun name =>
-        bind (alt2
-              (pmap (fun _ => ([] : List (Ref Expr)))
-                (peek (altList [void (tk ctx .RParen), void (tk ctx .Semic), void (tk ctx .Eof)])))
-              (parseList ctx (fun (e : Expr) => e.info.range) (parseArgument ctx) (loopFuel ctx)
-                (this.map (·.args)))) (fun args =>
-        bind (expect none (inc (tk ctx .RParen)) (.MissingClosing ')')) (fun _ =>
-        bind (expect none (inc (tk ctx .Semic)) .MissingTrailingSemic) (fun _ =>
-          pure' (name, args))))))))
+      (info (callInner ctx (this.map (·.name)) (this.map (·.args)))))
+
+def assignInner (target0 : Option Var) (expr0 : Option (Ref Expr)) : P (Var × Option (Ref Expr)) :=
+  bind (bind (parseVariable ctx (exprFuel ctx) target0) (fun v =>
+          bind (alt2 (tk ctx .Assign) (confusable (tk ctx .Eq) (.ConfusedToken assignS eqS))) (fun _ => pure' v))) (fun v =>
+    bind (expect expr0 (refExpr ctx) (.ExpectedToken (chars "expression"))) (fun e =>
+    bind (expect none (inc (tk ctx .Semic)) .MissingTrailingSemic) (fun _ =>
+      pure' (v, e))))
 
 /-- `Assignment::parse`. -/
 def parseAssignment (this : Option Assignment) : P Assignment :=
   affected ctx assignOps this
     (pmap (fun (p : (Var × Option (Ref Expr)) × AstInfo) =>
         ({ target := p.1.1, expr := p.1.2, info := p.2 } : Assignment))
-      (info (bind (bind (parseVariable ctx (exprFuel ctx) (this.map (·.target))) (fun v =>
-                bind (alt2 (tk ctx .Assign) (confusable (tk ctx .Eq) (.ConfusedToken assignS eqS))) (fun _ => pure' v))) (fun v =>
-        bind (expect (this.bind (·.expr)) (refExpr ctx) (.ExpectedToken (chars "expression"))) (fun e =>
-        bind (expect none (inc (tk ctx .Semic)) .MissingTrailingSemic) (fun _ =>
-          pure' (v, e)))))))
+      (info (assignInner ctx (this.map (·.target)) (this.bind (·.expr)))))
 
 /-- `Statement::parse::parse_error`: on failure the error carries the ORIGINAL input (the leading
     comments are not consumed — they belong to what follows, e.g. the next declaration). -/
@@ -391,6 +408,32 @@ def stmtParseError : P Stmt := fun s =>
     (info (bind (docComments ctx) (fun _ => ignoreUntil1 ctx (peek (la ctx .stmt)) (loopFuel ctx))))) s with
   | .err k _ => .err k s
   | r => r
+
+def ifInner (c0 : Option (Ref Expr)) (t0 e0 : Option (Ref Stmt)) (ps : Option (Ref Stmt) → P (Ref Stmt)) :
+    P (Option (Ref Expr) × Option (Ref Stmt) × Option (Option (Ref Stmt))) :=
+  bind (tk ctx .If) (fun _ =>
+    bind (expect none (inc (tk ctx .LParen)) (.MissingOpening '(')) (fun _ =>
+    bind (expect c0 (refExpr ctx) (.ExpectedToken (chars "expression"))) (fun c =>
+    bind (expect none (inc (tk ctx .RParen)) (.MissingClosing ')')) (fun _ =>
+    bind (expect t0 ps (.ExpectedToken (chars "expression"))) (fun t =>
+    bind (opt (bind (tk ctx .Else) (fun _ =>
+            expect e0 ps (.ExpectedToken (chars "statement"))))) (fun e =>
+      pure' (c, t, e)))))))
+
+def whileInner (c0 : Option (Ref Expr)) (b0 : Option (Ref Stmt)) (ps : Option (Ref Stmt) → P (Ref Stmt)) :
+    P (Option (Ref Expr) × Option (Ref Stmt)) :=
+  bind (tk ctx .While) (fun _ =>
+    bind (expect none (inc (tk ctx .LParen)) (.MissingOpening '(')) (fun _ =>
+    bind (expect c0 (refExpr ctx) (.ExpectedToken (chars "expression"))) (fun c =>
+    bind (expect none (inc (tk ctx .RParen)) (.MissingClosing ')')) (fun _ =>
+    bind (expect b0 ps (.ExpectedToken (chars "expression"))) (fun b =>
+      pure' (c, b))))))
+
+def blockInner (olds : Option (List (Ref Stmt))) (pstmt : Option Stmt → P Stmt) : P (List (Ref Stmt)) :=
+  bind (tk ctx .LCurly) (fun _ =>
+    bind (many ctx (fun (s : Stmt) => s.info.range) pstmt (loopFuel ctx) olds) (fun ss =>
+    bind (expect none (inc (tk ctx .RCurly)) (.MissingClosing '}')) (fun _ =>
+      pure' ss)))
 
 mutual
   /-- `Statement::parse`. -/
@@ -423,14 +466,7 @@ mutual
       affected ctx stmtOps this
         (pmap (fun (p : (Option (Ref Expr) × Option (Ref Stmt) × Option (Option (Ref Stmt))) × AstInfo) =>
             Stmt.ifS p.1.1 (OptStmt.ofOption p.1.2.1) (OptStmt.ofOption (p.1.2.2.getD none)) p.2)
-          (info (bind (tk ctx .If) (fun _ =>
-            bind (expect none (inc (tk ctx .LParen)) (.MissingOpening '(')) (fun _ =>
-            bind (expect c0 (refExpr ctx) (.ExpectedToken (chars "expression"))) (fun c =>
-            bind (expect none (inc (tk ctx .RParen)) (.MissingClosing ')')) (fun _ =>
-            bind (expect t0 (refParse (parseStmt fuel)) (.ExpectedToken (chars "expression"))) (fun t =>
-            bind (opt (bind (tk ctx .Else) (fun _ =>
-                    expect e0 (refParse (parseStmt fuel)) (.ExpectedToken (chars "statement"))))) (fun e =>
-              pure' (c, t, e))))))))))
+          (info (ifInner ctx c0 t0 e0 (refParse (parseStmt fuel)))))
 
   def parseWhile : Nat → Option Stmt → P Stmt
     | 0, _ => fun _ => .panic ⟨"fuel"⟩
@@ -441,12 +477,7 @@ mutual
       affected ctx stmtOps this
         (pmap (fun (p : (Option (Ref Expr) × Option (Ref Stmt)) × AstInfo) =>
             Stmt.whileS p.1.1 (OptStmt.ofOption p.1.2) p.2)
-          (info (bind (tk ctx .While) (fun _ =>
-            bind (expect none (inc (tk ctx .LParen)) (.MissingOpening '(')) (fun _ =>
-            bind (expect c0 (refExpr ctx) (.ExpectedToken (chars "expression"))) (fun c =>
-            bind (expect none (inc (tk ctx .RParen)) (.MissingClosing ')')) (fun _ =>
-            bind (expect b0 (refParse (parseStmt fuel)) (.ExpectedToken (chars "expression"))) (fun b =>
-              pure' (c, b)))))))))
+          (info (whileInner ctx c0 b0 (refParse (parseStmt fuel)))))
 
   def parseBlock : Nat → Option Stmt → P Stmt
     | 0, _ => fun _ => .panic ⟨"fuel"⟩
@@ -456,34 +487,35 @@ mutual
         | _ => none
       affected ctx stmtOps this
         (pmap (fun (p : List (Ref Stmt) × AstInfo) => Stmt.block (StmtList.ofList p.1) p.2)
-          (info (bind (tk ctx .LCurly) (fun _ =>
-            bind (many ctx (fun (s : Stmt) => s.info.range) (parseStmt fuel) (loopFuel ctx) olds) (fun ss =>
-            bind (expect none (inc (tk ctx .RCurly)) (.MissingClosing '}')) (fun _ =>
-              pure' ss))))))
+          (info (blockInner ctx olds (parseStmt fuel))))
 end
 
 def stmtFuel : Nat := 2 * ctx.toks.size + 16
+
+def procDeclInner (this : Option ProcDecl) :
+    P (List (List Char) × Option Identifier × List (Ref ParamDecl) × List (Ref VarDecl) × List (Ref Stmt)) :=
+  bind (docComments ctx) (fun doc =>
+    bind (tk ctx .Proc) (fun _ =>
+    bind (expect (this.bind (·.name)) (parseIdentifier ctx) (.ExpectedToken (chars "identifier"))) (fun name =>
+    bind (expect none (inc (tk ctx .LParen)) (.MissingOpening '(')) (fun _ =>
+    bind (alt2
+          (pmap (fun _ => ([] : List (Ref ParamDecl)))
+            (peek (altList [void (tk ctx .RParen), void (tk ctx .LCurly), void (tk ctx .Eof)])))
+          (parseList ctx (fun (p : ParamDecl) => p.info.range) (parseParamDecl ctx) (loopFuel ctx)
+            (this.map (·.params)))) (fun params =>
+    bind (expect none (inc (tk ctx .RParen)) (.MissingClosing ')')) (fun _ =>
+    bind (expect none (inc (tk ctx .LCurly)) (.MissingOpening '{')) (fun _ =>
+    bind (many ctx (fun (v : VarDecl) => v.info.range) (parseVarDecl ctx) (loopFuel ctx) (this.map (·.vars))) (fun vars =>
+    bind (many ctx (fun (s : Stmt) => s.info.range) (parseStmt ctx (stmtFuel ctx)) (loopFuel ctx) (this.map (·.stmts))) (fun stmts =>
+    bind (expect none (inc (tk ctx .RCurly)) (.MissingClosing '}')) (fun _ =>
+      pure' (doc, name, params, vars, stmts)))))))))))
 
 /-- `ProcedureDeclaration::parse`. -/
 def parseProcDecl (this : Option ProcDecl) : P ProcDecl :=
   affected ctx procDeclOps this
     (pmap (fun (p : (List (List Char) × Option Identifier × List (Ref ParamDecl) × List (Ref VarDecl) × List (Ref Stmt)) × AstInfo) =>
         ({ doc := p.1.1, name := p.1.2.1, params := p.1.2.2.1, vars := p.1.2.2.2.1, stmts := p.1.2.2.2.2, info := p.2 } : ProcDecl))
-      (info (bind (docComments ctx) (fun doc =>
-        bind (tk ctx .Proc) (fun _ =>
-        bind (expect (this.bind (·.name)) (parseIdentifier ctx) (.ExpectedToken (chars "identifier"))) (fun name =>
-        bind (expect none (inc (tk ctx .LParen)) (.MissingOpening '(')) (fun _ =>
-        bind (alt2
-              (pmap (fun _ => ([] : List (Ref ParamDecl)))
-                (peek (altList [void (tk ctx .RParen), void (tk ctx .LCurly), void (tk ctx .Eof)])))
-              (parseList ctx (fun (p : ParamDecl) => p.info.range) (parseParamDecl ctx) (loopFuel ctx)
-                (this.map (·.params)))) (fun params =>
-        bind (expect none (inc (tk ctx .RParen)) (.MissingClosing ')')) (fun _ =>
-        bind (expect none (inc (tk ctx .LCurly)) (.MissingOpening '{')) (fun _ =>
-        bind (many ctx (fun (v : VarDecl) => v.info.range) (parseVarDecl ctx) (loopFuel ctx) (this.map (·.vars))) (fun vars =>
-        bind (many ctx (fun (s : Stmt) => s.info.range) (parseStmt ctx (stmtFuel ctx)) (loopFuel ctx) (this.map (·.stmts))) (fun stmts =>
-        bind (expect none (inc (tk ctx .RCurly)) (.MissingClosing '}')) (fun _ =>
-          pure' (doc, name, params, vars, stmts))))))))))))))
+      (info (procDeclInner ctx this)))
 
 /-- `GlobalDeclaration::parse`. -/
 def parseGlobalDecl (this : Option GlobalDecl) : P GlobalDecl :=
